@@ -66,12 +66,13 @@ CATALOGUE = [
     '<dtml-tree tq branches_expr="kids()"><dtml-var tpId></dtml-tree>',
     '<dtml-in s3 mapping="" sort_expr="sk"></dtml-in>'[:0] +
     '<dtml-in "s3" sort_expr="sk" reverse><dtml-var xi></dtml-in>',
-    '<dtml-var va size=stt etc="~"><dtml-var sk upper>',
+    '<dtml-var va size=3 etc="~"><dtml-var sk upper>|'
+    '<dtml-var va html_quote upper spacify><dtml-var sk fmt=capitalize>',
     '<dtml-in s3 sort="va/nocase"><dtml-var va>,</dtml-in>',
     '<dtml-in s3 sort="xi/cmp,va/nocase/desc" reverse_expr="rv">'
     '<dtml-var va><dtml-var xi>,</dtml-in>',
     '<dtml-try><dtml-var fe><dtml-except ValueError>V<dtml-except OSError>O'
-    '<dtml-except>other</dtml-try><dtml-var vby>|',
+    '<dtml-except>other</dtml-try>|<dtml-var va>',
     # everything a handler can see of the error is the thread's own
     '<dtml-try><dtml-var fe><dtml-except><dtml-var error_type>:'
     '<dtml-var error_value>:<dtml-var error_tb></dtml-try>',
@@ -87,8 +88,13 @@ CATALOGUE = [
 def namespaces():
     from checks import c17
     pool = []
-    for spec in c17.POOL:
+    for i, spec in enumerate(c17.POOL):
         ns = dict(spec)
+        # per-thread values everywhere, also behind with-objects
+        ns['oa'] = dict(t='obj', attrs=dict(va='⟦OA%d.va⟧' % i,
+                                            xo='⟦OA%d.xo⟧' % i))
+        ns['ma'] = dict(t='dict', items=dict(va='⟦MA%d.va⟧' % i,
+                                             xm='⟦MA%d.xm⟧' % i))
         ns['tq'] = dict(t='tree', id='r', children=[
             dict(t='tree', id='a', children=[dict(t='tree', id='a1')]),
             dict(t='tree', id='b')])
@@ -159,6 +165,11 @@ def sweep(acc, src, syntax, i, j, stride1=1, two=False, stride2=40,
     """All single-preemption schedules of threads (ns i, ns j)."""
     specs = [POOL[i], POOL[j]]
     expected = [sequential(src, syntax, s) for s in specs]
+    if all(e[0] == 'exc' for e in expected):
+        # anti-vacuity: a catalogue template that fails in both threads
+        # exercises nothing
+        raise RuntimeError('catalogue template %r fails sequentially: %r'
+                           % (src, expected))
     for cooked in modes:
         res, steps, _ = run_schedule(src, syntax, specs, [], cooked)
         bad = judge(res, expected, [])
@@ -206,7 +217,47 @@ def check_case(case):
     return judge(res, expected, at)
 
 
+# small templates for which every placement of TWO preemptions is explored
+# (both threads are then inside the same block at the same time)
+TWO_PREEMPTION = [
+    '<dtml-with oa only><dtml-var va>:<dtml-var xo></dtml-with>',
+    '<dtml-with ma mapping><dtml-var va><dtml-with oa><dtml-var xo>'
+    '</dtml-with></dtml-with>',
+    '<dtml-in s3 prefix=pp size=2 start=stt><dtml-var pp_index>'
+    '<dtml-var va></dtml-in>',
+    '<dtml-let la=va lb=sk><dtml-if ct><dtml-var la></dtml-if><dtml-var lb>'
+    '</dtml-let>',
+]
 COOK_FILES = ('DT_String.py',)
+
+
+BLOCK_FILES = ('DT_With.py', 'DT_Let.py', 'DT_In.py', 'DT_InSV.py')
+
+
+def two_preemption_sweep(acc, src, i, j, first, budget):
+    """Every placement of two preemptions at lines of the block tags' own
+    code: thread A stops inside a block, thread B stops inside the same
+    block, A finishes, B finishes."""
+    specs = [POOL[i], POOL[j]]
+    expected = [sequential(src, 'dtml', s) for s in specs]
+    res, steps, _ = run_schedule(src, 'dtml', specs, [], True, BLOCK_FILES)
+    other = 1 - first
+    total = max(1, steps[first] * steps[other])
+    stride = 1
+    while total // (stride * stride) > budget:
+        stride += 1
+    for p in range(1, steps[first], stride):
+        for q in range(1, steps[other], stride):
+            segs = [[first, p], [other, q], [first, -1]]
+            res, st, at = run_schedule(src, 'dtml', specs, segs, True,
+                                       BLOCK_FILES)
+            case = dict(src=src, syntax='dtml', ns=[i, j], segments=segs,
+                        cooked=True, only_files=list(BLOCK_FILES))
+            acc.case(case, True, klass='two-preemptions-in-blocks',
+                     distinct_by_construction=True)
+            bad = judge(res, expected, at)
+            if bad:
+                acc.fail(bad[0] + ':two-preemptions', case, bad[1])
 
 
 def cook_race_sweep(acc, src, i, j, p1s, stride3=1, stride2=1):
@@ -266,6 +317,21 @@ def plan(tier, seed):
             a, b = pairs[(k + 1) % len(pairs)]
             shards.append(dict(kind='sweep', src=src, ns=[a, b], stride1=1,
                                two=True))
+    blocks = [c for c in CATALOGUE if '<dtml-with' in c or '<dtml-in' in c
+              or '<dtml-let' in c]
+    for k, src in enumerate(TWO_PREEMPTION + blocks):
+        small = k >= len(TWO_PREEMPTION)
+        for first in (0, 1):
+            if small:
+                shards.append(dict(kind='two-preemptions', src=src,
+                                   ns=[(k + first) % 4, (k + first + 1) % 4],
+                                   first=first, budget=600 if tier == 'quick'
+                                   else 20000))
+                continue
+            shards.append(dict(kind='two-preemptions', src=src,
+                               ns=[k % 4, (k + 1) % 4 + (1 if k == 3 else 0)],
+                               first=first, budget=2500 if tier == 'quick'
+                               else 60000))
     for p1 in range(1, 9):
         q = tier == 'quick'
         shards.append(dict(kind='cook-race', src='<dtml-var va>|'
@@ -286,6 +352,10 @@ def plan(tier, seed):
 
 def run_shard(shard):
     acc = Acc(ID, sample_every=997)
+    if shard['kind'] == 'two-preemptions':
+        two_preemption_sweep(acc, shard['src'], shard['ns'][0],
+                             shard['ns'][1], shard['first'], shard['budget'])
+        return acc.result()
     if shard['kind'] == 'cook-race':
         cook_race_sweep(acc, shard['src'], shard['ns'][0], shard['ns'][1],
                         shard['p1s'], shard['stride3'],
